@@ -86,6 +86,7 @@ inductive Val (F : Type)
   | flt (f : F)
   | nil
   | nonNil                                       -- an opaque non-nil reference (an error value, a pointer)
+  | ref (n : Nat)                                -- an opaque non-nil value with an identity (a string, a map, a pointer)
   deriving Repr, DecidableEq
 
 structure State (F : Type) where
@@ -212,33 +213,42 @@ def finish : Outcome F → Except String (List (Val F) × State F)
 
 variable [FloatLike F]
 
+def binopInt (op : BinOp) (a b : Int) : Except String (Val F) :=
+  match op with
+  | .add => .ok (.int (a + b)) | .sub => .ok (.int (a - b)) | .mul => .ok (.int (a * b))
+  | .quo => if b = 0 then .error "panic: integer divide by zero" else .ok (.int (a.tdiv b))
+  | .rem => if b = 0 then .error "panic: integer divide by zero" else .ok (.int (a.tmod b))
+  | .lt => .ok (.bool (decide (a < b))) | .le => .ok (.bool (decide (a ≤ b)))
+  | .gt => .ok (.bool (decide (a > b))) | .ge => .ok (.bool (decide (a ≥ b)))
+  | .eq => .ok (.bool (decide (a = b))) | .ne => .ok (.bool (decide (a ≠ b)))
+  | _ => .error "type: boolean operator on integers"
+
+def binopFlt (op : BinOp) (a b : F) : Except String (Val F) :=
+  match op with
+  | .add => .ok (.flt (FloatLike.add a b)) | .sub => .ok (.flt (FloatLike.sub a b))
+  | .mul => .ok (.flt (FloatLike.mul a b)) | .quo => .ok (.flt (FloatLike.div a b))
+  | .lt => .ok (.bool (FloatLike.lt a b)) | .le => .ok (.bool (FloatLike.le a b))
+  | .gt => .ok (.bool (FloatLike.lt b a)) | .ge => .ok (.bool (FloatLike.le b a))
+  | .eq => .ok (.bool (FloatLike.beq a b)) | .ne => .ok (.bool (!FloatLike.beq a b))
+  | _ => .error "type: operator on floats"
+
+def binopBool (op : BinOp) (a b : Bool) : Except String (Val F) :=
+  match op with
+  | .land => .ok (.bool (a && b)) | .lor => .ok (.bool (a || b))
+  | .eq => .ok (.bool (a == b)) | .ne => .ok (.bool (a != b))
+  | _ => .error "type: arithmetic on booleans"
+
+/-- comparison with nil: `same` says whether both sides are nil -/
+def binopNil (op : BinOp) (same : Bool) : Except String (Val F) :=
+  match op with
+  | .eq => .ok (.bool same) | .ne => .ok (.bool (!same)) | _ => .error "type: operator on nil"
+
 def binop (op : BinOp) : Val F → Val F → Except String (Val F)
-  | .int a, .int b =>
-    match op with
-    | .add => .ok (.int (a + b)) | .sub => .ok (.int (a - b)) | .mul => .ok (.int (a * b))
-    | .quo => if b = 0 then .error "panic: integer divide by zero" else .ok (.int (a.tdiv b))
-    | .rem => if b = 0 then .error "panic: integer divide by zero" else .ok (.int (a.tmod b))
-    | .lt => .ok (.bool (decide (a < b))) | .le => .ok (.bool (decide (a ≤ b)))
-    | .gt => .ok (.bool (decide (a > b))) | .ge => .ok (.bool (decide (a ≥ b)))
-    | .eq => .ok (.bool (decide (a = b))) | .ne => .ok (.bool (decide (a ≠ b)))
-    | _ => .error "type: boolean operator on integers"
-  | .flt a, .flt b =>
-    match op with
-    | .add => .ok (.flt (FloatLike.add a b)) | .sub => .ok (.flt (FloatLike.sub a b))
-    | .mul => .ok (.flt (FloatLike.mul a b)) | .quo => .ok (.flt (FloatLike.div a b))
-    | .lt => .ok (.bool (FloatLike.lt a b)) | .le => .ok (.bool (FloatLike.le a b))
-    | .gt => .ok (.bool (FloatLike.lt b a)) | .ge => .ok (.bool (FloatLike.le b a))
-    | .eq => .ok (.bool (FloatLike.beq a b)) | .ne => .ok (.bool (!FloatLike.beq a b))
-    | _ => .error "type: operator on floats"
-  | .bool a, .bool b =>
-    match op with
-    | .land => .ok (.bool (a && b)) | .lor => .ok (.bool (a || b))
-    | .eq => .ok (.bool (a == b)) | .ne => .ok (.bool (a != b))
-    | _ => .error "type: arithmetic on booleans"
-  | .nil, .nil => match op with
-    | .eq => .ok (.bool true) | .ne => .ok (.bool false) | _ => .error "type: operator on nil"
-  | .nil, _ | _, .nil => match op with          -- exactly one side is nil (a pointer to a value is not)
-    | .eq => .ok (.bool false) | .ne => .ok (.bool true) | _ => .error "type: operator on nil"
+  | .int a, .int b => binopInt op a b
+  | .flt a, .flt b => binopFlt op a b
+  | .bool a, .bool b => binopBool op a b
+  | .nil, .nil => binopNil op true
+  | .nil, _ | _, .nil => binopNil op false          -- exactly one side is nil (a pointer to a value is not)
   | _, _ => .error "type: operands"
 
 /-- arithmetic with a fixed meaning. Times and durations are integers (nanoseconds; the zero time is 0). -/
@@ -413,6 +423,93 @@ omit [FloatLike F] in
 def State.ofVars (l : List (String × Val F)) : State F := ⟨l, [], [], [], []⟩
 
 
+/-! #### optional fields (Go pointers that may be nil) and the merging of states at the end of an `if` -/
+
+/-- a pointer field holding an opaque value (`*string`, `*map…`): nil or a reference -/
+def optRef (o : Option Nat) : Val F := match o with | some k => .ref k | none => .nil
+/-- a pointer field holding an integer (`*int`, `*time.Duration`): nil or the number -/
+def optInt (o : Option Int) : Val F := match o with | some i => .int i | none => .nil
+
+omit [FloatLike F] in
+@[minigo] theorem optRef_some (k : Nat) : optRef (F := F) (some k) = .ref k := rfl
+omit [FloatLike F] in
+@[minigo] theorem optRef_none : optRef (F := F) none = .nil := rfl
+omit [FloatLike F] in
+@[minigo] theorem optInt_some (i : Int) : optInt (F := F) (some i) = .int i := rfl
+omit [FloatLike F] in
+@[minigo] theorem optInt_none : optInt (F := F) none = .nil := rfl
+@[minigo] theorem coerce_nil_right (v : Val F) : coerce v (.nil : Val F) = (v, .nil) := by cases v <;> rfl
+@[minigo] theorem binop_eq_optRef_nil (o : Option Nat) : binop .eq (optRef (F := F) o) .nil = .ok (.bool o.isNone) := by
+  cases o <;> rfl
+@[minigo] theorem binop_eq_optInt_nil (o : Option Int) : binop .eq (optInt (F := F) o) .nil = .ok (.bool o.isNone) := by
+  cases o <;> rfl
+@[minigo] theorem binop_ne_optRef_nil (o : Option Nat) : binop .ne (optRef (F := F) o) .nil = .ok (.bool o.isSome) := by
+  cases o <;> rfl
+@[minigo] theorem binop_ne_optInt_nil (o : Option Int) : binop .ne (optInt (F := F) o) .nil = .ok (.bool o.isSome) := by
+  cases o <;> rfl
+@[minigo] theorem binop_int_int (op : BinOp) (a b : Int) : binop (F := F) op (.int a) (.int b) = binopInt op a b := rfl
+@[minigo] theorem binop_flt_flt (op : BinOp) (a b : F) : binop op (.flt a) (.flt b) = binopFlt op a b := rfl
+@[minigo] theorem binop_bool_bool (op : BinOp) (a b : Bool) : binop (F := F) op (.bool a) (.bool b) = binopBool op a b := rfl
+@[minigo] theorem binop_nil_nil (op : BinOp) : binop (F := F) op .nil .nil = binopNil op true := rfl
+@[minigo] theorem binop_nonNil_nil (op : BinOp) : binop (F := F) op .nonNil .nil = binopNil op false := rfl
+@[minigo] theorem binop_nil_nonNil (op : BinOp) : binop (F := F) op .nil .nonNil = binopNil op false := rfl
+@[minigo] theorem binop_int_nil (op : BinOp) (a : Int) : binop (F := F) op (.int a) .nil = binopNil op false := rfl
+@[minigo] theorem binop_nil_int (op : BinOp) (a : Int) : binop (F := F) op .nil (.int a) = binopNil op false := rfl
+@[minigo] theorem binop_ref_nil (op : BinOp) (n : Nat) : binop (F := F) op (.ref n) .nil = binopNil op false := rfl
+@[minigo] theorem binop_nil_ref (op : BinOp) (n : Nat) : binop (F := F) op .nil (.ref n) = binopNil op false := rfl
+@[minigo] theorem binop_flt_nil (op : BinOp) (a : F) : binop op (.flt a) .nil = binopNil op false := rfl
+@[minigo] theorem coerce_int_int (a b : Int) : coerce (F := F) (.int a) (.int b) = (.int a, .int b) := rfl
+@[minigo] theorem coerce_flt_flt (a b : F) : coerce (.flt a) (.flt b) = (.flt a, .flt b) := rfl
+@[minigo] theorem coerce_flt_int (a : F) (b : Int) : coerce (.flt a) (.int b) = (.flt a, .flt (FloatLike.ofInt b)) := rfl
+@[minigo] theorem coerce_int_flt (a : Int) (b : F) : coerce (.int a) (.flt b) = (.flt (FloatLike.ofInt a), .flt b) := rfl
+@[minigo] theorem coerce_bool_bool (a b : Bool) : coerce (F := F) (.bool a) (.bool b) = (.bool a, .bool b) := rfl
+@[minigo] theorem coerce_nil_left (v : Val F) : coerce (.nil : Val F) v = (.nil, v) := by cases v <;> rfl
+/-- field inheritance: the value itself if present, else the default -/
+def inherit {α} (a b : Option α) : Option α := match a with | some x => some x | none => b
+
+omit [FloatLike F] in
+@[minigo] theorem optRef_inherit (o d : Option Nat) :
+    (if o = none then optRef (F := F) d else optRef o) = optRef (inherit o d) := by
+  cases o <;> simp [inherit]
+omit [FloatLike F] in
+@[minigo] theorem optInt_inherit (o d : Option Int) :
+    (if o = none then optInt (F := F) d else optInt o) = optInt (inherit o d) := by
+  cases o <;> simp [inherit]
+omit [FloatLike F] in
+@[minigo] theorem both_none_iff {α} (o d : Option α) : (o = none ∧ d = none) ↔ inherit o d = none := by
+  cases o <;> simp [inherit]
+
+/-! two branches of an `if` that both end normally, in states with the same variables, continue as *one* state whose
+values are conditional — instead of as two paths (which would double at every optional field) -/
+omit [FloatLike F] in
+@[minigo] theorem merge_normal (p : Prop) [Decidable p] (a b : State F) :
+    (if p then Outcome.normal a else Outcome.normal b) = Outcome.normal (if p then a else b) := by split <;> rfl
+omit [FloatLike F] in
+/-- the required-field pattern `if x == nil { if d == nil { return … }; x = d }`: one early exit, one merged state -/
+@[minigo] theorem merge_guard (p q : Prop) [Decidable p] [Decidable q] (r : Outcome F) (a b : State F) :
+    (if p then (if q then r else Outcome.normal a) else Outcome.normal b) =
+      if p ∧ q then r else Outcome.normal (if p then a else b) := by
+  by_cases hp : p <;> by_cases hq : q <;> simp [hp, hq]
+omit [FloatLike F] in
+@[minigo] theorem merge_state (p : Prop) [Decidable p] (v1 v2 : List (String × Val F)) (c : List (String × Nat))
+    (t d : List String) (ar : List (String × List (List (String × Val F)))) :
+    (if p then State.mk v1 c t d ar else State.mk v2 c t d ar) = State.mk (if p then v1 else v2) c t d ar := by
+  split <;> rfl
+omit [FloatLike F] in
+@[minigo] theorem merge_cons (p : Prop) [Decidable p] (k : String) (a b : Val F) (l1 l2 : List (String × Val F)) :
+    (if p then (k, a) :: l1 else (k, b) :: l2) = (k, if p then a else b) :: (if p then l1 else l2) := by split <;> rfl
+omit [FloatLike F] in
+@[minigo] theorem merge_int (p : Prop) [Decidable p] (a b : Int) :
+    (if p then (Val.int a : Val F) else Val.int b) = Val.int (if p then a else b) := by split <;> rfl
+omit [FloatLike F] in
+@[minigo] theorem merge_bool (p : Prop) [Decidable p] (a b : Bool) :
+    (if p then (Val.bool a : Val F) else Val.bool b) = Val.bool (if p then a else b) := by split <;> rfl
+omit [FloatLike F] in
+@[minigo] theorem merge_flt (p : Prop) [Decidable p] (a b : F) :
+    (if p then Val.flt a else Val.flt b) = Val.flt (if p then a else b) := by split <;> rfl
+omit [FloatLike F] in
+@[minigo] theorem merge_nil (p : Prop) [Decidable p] : (if p then ([] : List (String × Val F)) else []) = [] := by split <;> rfl
+
 /-! #### evaluation on a *literal* state
 
 `simp [minigo]` evaluates a program symbolically. The equations below only fire on a state that is a literal
@@ -570,7 +667,13 @@ omit [FloatLike F] in
 
 end literal
 
-attribute [minigo] runFn State.ofVars binop coerce convert builtin1 builtin2 lookup upd
+/-- two states that could not be merged into one (different shapes): back to two paths -/
+@[minigo] theorem exec_ite_state (ext : Ext F) (fuel : Nat) (st : Stmt) (p : Prop) [Decidable p] (a b : State F) :
+    exec ext fuel st (if p then a else b) = if p then exec ext fuel st a else exec ext fuel st b := by split <;> rfl
+@[minigo] theorem evalE_ite_state (ext : Ext F) (e : Expr) (p : Prop) [Decidable p] (a b : State F) :
+    evalE ext e (if p then a else b) = if p then evalE ext e a else evalE ext e b := by split <;> rfl
+
+attribute [minigo] runFn State.ofVars binopInt binopFlt binopBool binopNil convert builtin1 builtin2 lookup upd
 
 /-! ### what the interleaving models cut functions into: the atomic operations, in program order -/
 
